@@ -79,6 +79,15 @@ def plainL : List Cell → Bool
   | c :: cs => plain c && plainL cs
 end
 
+mutual
+/-- no cell has exactly one ref (dictionary nodes are leaves or binary forks) -/
+def noSingleRef : Cell → Bool
+  | .mk _ _ _ refs => refs.length != 1 && noSingleRefL refs
+def noSingleRefL : List Cell → Bool
+  | [] => true
+  | c :: cs => noSingleRef c && noSingleRefL cs
+end
+
 /-- the cell at `path` below `c` (`Cursor.Ref` chain); `none` = `c.cell.refs[ref]` out of range, a Go panic -/
 def cellAt : Cell → List Nat → Option Cell
   | c, [] => some c
